@@ -260,7 +260,7 @@ void dump_input(std::string &out, const TSInputView &in, bool deep) {
                 }
                 case TSTypeKind::TSW: {
                     out += ",\"acc\":";
-                    guarded(out, [&](std::string &o) { auto w = in.as_window(); o += "{\"size\":" + std::to_string(w.size()) + ",\"values\":["; bool f = true; for (auto v : w.values()) { if (!f) o += ','; f = false; json_of(o, v); } o += "]}"; });
+                    guarded(out, [&](std::string &o) { auto w = in.as_window(); o += "{\"size\":" + std::to_string(w.size()) + ",\"values\":["; bool f = true; for (auto v : w.values()) { if (!f) o += ','; f = false; json_of(o, v); } o += "],\"rm\":"; if (w.has_removed_value()) json_of(o, w.removed_value()); else o += "null"; o += "}"; });
                     break;
                 }
                 default: break;
